@@ -42,6 +42,9 @@ def cases(tier, seed):
             continue
         for r in range(reps * 2):
             out.append(dict(kind="other", cfg=cfg, family="gen", B=16, s=rnd.randrange(10**6)))
+        if cfg["env"] in ("fjsp", "jssp") and cfg.get("pmax", 9) <= 99 and cfg["jobs"] <= 6:
+            for r in range(reps):
+                out.append(dict(kind="other", cfg=cfg, family="sentinel", B=16, s=rnd.randrange(10**6)))
     # a few instances at the library's production sizes (size-keyed tables, algorithm switches above a size, long episodes)
     if tier == "quick":
         for cfg in [c for c in envzoo.routing_configs((50,)) if c["env"] != "mtvrp" or c.get("preset") in ("all", "ovrpbltw")] + [c for c in envzoo.routing_configs((100,)) if c["env"] in ("tsp", "cvrp", "op", "pctsp")]:
@@ -59,6 +62,8 @@ def cases(tier, seed):
     for i, c_ in enumerate(out):
         if i % 4 == 3:
             c_["reuse"] = True
+            if c_.get("cfg", {}).get("env") in ("flp", "mcp", "dpp", "mdpp", "fjsp", "jssp", "smtwtp"):
+                c_["reuse_n"] = [1, 4, 9][(i // 4) % 3]
         elif i % 4 == 1 and "cfg" in c_ and (c_.get("kind", "routing") != "routing" or c_["cfg"]["env"] in TORCHRL_ENVS):
             c_["torchrl"] = True  # TorchRL-mode env driven with look-ahead probes
     return out
